@@ -64,7 +64,7 @@ def exec_step(world, step, idx):
     elif op == "send":
         m = resolve(world, step["m"])
         if m is not UNRESOLVED:
-            world.send(step["c"], [m], step=idx, seg=step.get("seg"), wire=step.get("wire"))
+            world.send(step["c"], [m], step=idx, seg=step.get("seg"), wire=step.get("wire"), gap=step.get("gap"))
     elif op == "batch":
         ms = resolve(world, step["ms"])
         if ms is not UNRESOLVED and ms:
